@@ -78,7 +78,7 @@ def critical_failures_at(n, sig):
 
 # p95 iteration envelopes per stratum: measured on the unchanged tree over seeds 1..3
 # (exp 12-13, genpow 19-20, lp_qp 10, pow 13, psd 11-12, soc 11-12, soc_small 9-10) + 30 %
-STRATUM_P95 = {"exp": 17, "genpow": 26, "lp_qp": 14, "pow": 17, "psd": 16, "soc": 16, "soc_small": 13}
+STRATUM_P95 = {"soc_axis": 11, "soc_axis_resolve": 11, "exp": 17, "genpow": 26, "lp_qp": 14, "pow": 17, "psd": 16, "soc": 16, "soc_small": 13}
 
 
 def post_strata(chk, recs):
